@@ -8,6 +8,9 @@ Line protocol (after the property id):
              | partial | apartial
   spec  <what> <nchan> <f> <lb> <ub> <fxy[0][0]> <fxy[0][1]> … (upper triangle, row-major, complex)
       what ∈ coherency | coherence | aphase | cohbavg | apartial
+  specfull apartial <nchan> <nf> <S[0][0]> <S[0][1]> … <S[n-1][n-1]>   (ALL n·n rows of the array the analyzer exposes as
+      `.spectrum`, whatever its layout: half-filled for welch, full for multi_taper_csd / periodogram_csd)
+      CoherenceAnalyzer.coherence_partial = `analyzerPartial csdOf S` (Model/C08Layout.lean), flattened over i, j, r, k
   mtcsd <what> <Fs> <N> <sides> <M> <T> <tapers> <wmode> <weights> <x>   (arguments as C04/C06 `mtcsd`)
       the multitaper estimator of the spectral model (`Nitime.C04.multiTaperCsdList`: tapered spectra from the
       data, tapers and weights given as data) followed by the coherence layer; what ∈ coherency | coherence
@@ -18,6 +21,7 @@ import Nitime.Model.CohBase
 import Nitime.Model.C04
 import Nitime.Model.C08Hist
 import Nitime.Model.C08Retarget
+import Nitime.Model.C08Layout
 
 namespace Nitime.C08
 open Nitime.Coh Nitime.Coh.CScalar
@@ -128,6 +132,21 @@ def handleSpec (args : List String) : Option String := do
     let arr := rows.toArray.map (·.toArray)
     let spec : Nat → Nat → Nat → Cx := fun i j k => (arr.getD (idx i j) #[]).getD k ⟨0.0, 0.0⟩
     specOps what n nf spec f lb ub
+  | _ => none
+
+/-- `CoherenceAnalyzer.coherence_partial` from the array the analyzer itself exposes (every row, both halves):
+    the cross-spectra are read through the closure `csdOf` -/
+def handleSpecFull (args : List String) : Option String := do
+  match args with
+  | "apartial" :: sn :: snf :: rest =>
+    let n ← sn.toNat?
+    let nf ← snf.toNat?
+    let rows ← rest.mapM parseCxList?
+    if rows.length ≠ n * n then none
+    let arr := rows.toArray.map (·.toArray)
+    let S : Nat → Nat → Nat → Cx := fun i j k => (arr.getD (i * n + j) #[]).getD k ⟨0.0, 0.0⟩
+    some ("ok " ++ showRe ((List.range n).flatMap fun i => (List.range n).flatMap fun j =>
+      (List.range n).flatMap fun r => (List.range nf).map fun k => analyzerPartial csdOf S i j r k))
   | _ => none
 
 def splitAtN {α} (n : Nat) (xs : List α) : List α × List α := (xs.take n, xs.drop n)
@@ -262,6 +281,7 @@ def handle (args : List String) : String :=
   | "mtcsd" :: rest => (handleMtCsd rest).getD "bad-op"
   | "welch" :: rest => (handleWelch rest).getD "bad-op"
   | "spec" :: rest => (handleSpec rest).getD "bad-op"
+  | "specfull" :: rest => (handleSpecFull rest).getD "bad-op"
   | "mt" :: rest => (handleMt rest).getD "bad-op"
   | _ => "bad-op"
 
